@@ -3,6 +3,7 @@ import gens_split as G
 import splitcommon as SC
 from props import c09_copies as CP
 from props import c09_wide as WD
+from props import c09_keychars as KC
 
 ENGINE = "split"
 RULE = ("grammar documents whose entry keys, string keys and field names are drawn from pools of 2-3 names so that collisions of every "
@@ -28,7 +29,18 @@ RULE = ("grammar documents whose entry keys, string keys and field names are dra
         "one name three times; in a document with a clean entry of the same key after it (which must be the live one), before it, on both "
         "sides, or after two such entries, sometimes with an unrelated block in between; through parse_string with the default stack and "
         "Splitter.split or parse_string with the empty stack (a seeded part also compared with the splitter model, the rest oracle-only), "
-        "each returned library judged by the statement")
+        "each returned library judged by the statement. "
+        "Stream `keychars` (props/c09_keychars.py): entry keys, @string names and field names built around ONE atom - each printable ASCII "
+        "punctuation character that is not a delimiter (! # $ % & ' ( ) * + - . / : ; < > ? @ [ \\ ] ^ _ ` | ~), each delimiter escaped by a "
+        "backslash, non-ASCII letters, digits of other scripts / superscripts, letters with odd case mappings, combining marks, invisible "
+        "characters that are not white space - at the start / in the middle / at the end / alone / doubled / doubled inside; legality is "
+        "decided from the dialect grammar (key = anything but white space and active delimiters), not by the tree under test; as a single "
+        "entry (with fields, field-less), second and third occurrence of the key, an entry repeating a field name before / between clean "
+        "entries of the key, interleaved with @string blocks of the same name, next to a sibling key that differs only around the atom, "
+        "the same for @string names, field names (distinct, repeated, siblings), and pairs of different keys that look alike (case, "
+        "composed / decomposed, sharp s, full-width digit, invisible character); every document through parse_string with the empty stack "
+        "(compared with the splitter model) and the default stack, seeded also Splitter.split and a two-part parse with library=; each "
+        "returned library judged by the statement, live blocks must hold exactly the key / fields / value written")
 TRUSTED = ["the ground truth (source blocks) is produced by the generator",
            "stream `history`: which member a remove/replace argument denotes is decided with the library's own Block.__eq__ (C19's subject); "
            "steps whose argument equals more than one member are left out"]
@@ -63,6 +75,8 @@ def generate(rng, tier):
     cases.extend(CP.generate(rng, tier))
     # entries with many distinct field names and one repeat at every position pair (props/c09_wide.py)
     cases.extend(WD.generate(rng, tier))
+    # keys made of every character the format accepts in a key, in every collision shape (props/c09_keychars.py); appended last
+    cases.extend(KC.generate(rng, tier))
     return cases
 
 
@@ -469,6 +483,8 @@ def impl_history(case):
 
 
 def impl(case):
+    if case.get("stream") == "keychars" or "keychars" in case["input"]:
+        return KC.impl(case)
     if case.get("stream") == "wide" or "wide" in case["input"]:
         return WD.impl(case)
     if case.get("stream") == "copies" or "path" in case["input"]:
